@@ -806,6 +806,41 @@ func cmdCheckOracle(args []string) {
 			}
 		}
 	}
+	// the skip budget: Check gives up only after 10*N *skipped* test cases; valid ones do not count against it. A
+	// property (stateful on purpose: the k-th invocation decides) passes lead times, then skips s times, then passes
+	if *only < 0 || *only == 900008 {
+		for _, n := range []int{1, 2, 3, 7, 20} {
+			for _, lead := range []int{0, n - 1} {
+				for _, sk := range []int{0, 1, 9*n - 1, 9 * n, 9*n + 1, 10*n - 1, 10 * n, 10*n + 3} {
+					if sk < 0 {
+						continue
+					}
+					calls := 0
+					prop := func(t *rapid.T) {
+						calls++
+						if calls > lead && calls <= lead+sk {
+							t.Skip("not this one")
+						}
+					}
+					old := setFlags(n, *seed|1, 0, true)
+					tb := &recTB{name: "T"}
+					esc := runTB(func() { rapid.Check(tb, prop) })
+					rapid.VerifSetFlags(old)
+					verdict, a, b, msg, _ := classifyTB(tb)
+					stats["skip_budget_runs"]++
+					wantVerdict, wantA, wantB, wantCalls := "ok", n, 0, n+sk
+					if sk >= 10*n {
+						wantVerdict, wantA, wantB, wantCalls = "onlygen", lead, lead+10*n, lead+10*n
+					}
+					if esc != nil || verdict != wantVerdict || a != wantA || b != wantB || calls != wantCalls {
+						fails = append(fails, oracleFailure{"C09", "Check does not do the promised amount of work: skipped test cases only count against the budget of 10*N skipped ones",
+							fmt.Sprintf("property that passes %d times, then skips %d times, then passes; -rapid.checks=%d", lead, sk, n), n, *seed | 1, "0s",
+							fmt.Sprintf("verdict=%s (%d, %d) after %d invocations, expected %s (%d, %d) after %d; msg=%q escaped=%v errors=%q", verdict, a, b, calls, wantVerdict, wantA, wantB, wantCalls, msg, esc, tb.Errors), *seed, 900008, *prof})
+					}
+				}
+			}
+		}
+	}
 	// many large passing test cases in one run: every one of them is valid on its own, whatever ran before it
 	if *only < 0 || *only == 900003 {
 		gbig := rapid.SliceOfN(rapid.Uint16(), 50000, 60000)
